@@ -169,3 +169,20 @@ Proof.
   pose proof (auth_run sched b0 ths H0) as H. rewrite Forall_forall in H. specialize (H t Hin).
   unfold auth_ok in H. unfold delivered in Hd. destruct (t_pc t) as [| | |[| |]]; try discriminate. exact H.
 Qed.
+
+(* a tunnel whose window has already processed any in-range history (e.g. the seeding loop of
+   newConnectionStateFromResult, or earlier traffic) *)
+Lemma inv_seeded L b0 ops ths :
+  pow2 L -> new_bits L = Some b0 -> ops_in_range L ops = true -> threads_ok L ths = true ->
+  inv L (snd (run_ops b0 ops), ths).
+Proof.
+  intros HL Hn Hr Hok.
+  destruct (run_sim L HL ops b0 spec_init (R_init L b0 HL Hn) Hr) as [_ HR].
+  exists (snd (spec_run L spec_init ops)). cbn [fst snd]. split; [exact HR|].
+  unfold threads_ok in Hok. split.
+  - apply Forall_forall. intros t Ht. rewrite forallb_forall in Hok. specialize (Hok t Ht).
+    apply andb_true_iff in Hok as [_ Hr']. apply N.ltb_lt in Hr'. exact Hr'.
+  - intros c. rewrite fresh_not_delivered; [lia|].
+    rewrite forallb_forall in *. intros t Ht. specialize (Hok t Ht).
+    apply andb_true_iff in Hok as [Hf _]. exact Hf.
+Qed.
